@@ -757,8 +757,20 @@ class Channel:
                 try:
                     olditem = items.get(block=False)
                 except self.gateway.execmodel.queue.Empty:
-                    if not (self._closed or self._receiveclosed.is_set()):
-                        _callbacks[self.id] = (callback, endmarker, self._strconfig)
+                    if self._closed or self._receiveclosed.is_set():
+                        # closed meanwhile by a thread that does not hold
+                        # the receive lock (end of receiving, close()) and
+                        # could not queue an ENDMARKER for us any more
+                        if endmarker is not NO_ENDMARKER_WANTED:
+                            callback(endmarker)
+                        break
+                    _callbacks[self.id] = (callback, endmarker, self._strconfig)
+                    if self.gateway._channelfactory.finished:
+                        # receiving ended while we registered: whoever
+                        # unregisters the callback delivers the endmarker
+                        if _callbacks.pop(self.id, None) is not None:
+                            if endmarker is not NO_ENDMARKER_WANTED:
+                                callback(endmarker)
                     break
                 else:
                     if olditem is ENDMARKER:
@@ -1176,8 +1188,7 @@ class BaseGateway:
             log(self._geterrortext(exc))
         log("finishing receiving thread")
         # wake up and terminate any execution waiting to receive
-        with self._receivelock:
-            self._channelfactory._finished_receiving()
+        self._channelfactory._finished_receiving()
         log("terminating execution")
         self._terminate_execution()
         log("closing read")
